@@ -57,7 +57,8 @@ def c04(run):
     run.trace("history", Q(run, 60, 600), types=frames)
     run.trace("encode-any", Q(run, 30, 300), types=frames, seed_off=100)
     run.trace("tables", Q(run, 1, 3), types=frames, seed_off=200)
-    return run.finish(RULE_WIRE + RULE_TRACE + "Frames only (the four length-computing frame types x all their registered bodies).")
+    run.trace("huge-frames", Q(run, 1, 2), seed_off=300)
+    return run.finish(RULE_WIRE + RULE_TRACE + "huge-frames: bodies of 64 KiB .. 16 MiB (thorough: 40 MiB), judged on the head of the frame and its size. Frames only (the four length-computing frame types x all their registered bodies).")
 
 
 def c05(run):
